@@ -203,6 +203,7 @@ type Engine struct {
 	strLitIDs map[string]uint64
 	unrolls map[string]*ssa.Function
 	topPkg string
+	loopEval *loopEvalCtx
 	reveal bool
 	usedLemmas map[string]bool
 	strict bool
